@@ -1091,4 +1091,98 @@ theorem C08_response_to_finished_request_is_handled (cfg : Cfg) (tbl : List Pend
 example : tableOf [⟨"p1", ⟨"", "iq"⟩, .sendFailed⟩, ⟨"p2", ⟨"", "iq"⟩, .waiting⟩, ⟨"p3", ⟨"", "iq"⟩, .gaveUp⟩]
     = [⟨"p2", ⟨"", "iq"⟩⟩] := by decide
 
+/-! ### Round G: exact view / one invocation per element with local requests pending -/
+
+/-- an element the table of pending requests does not claim: it is not of type result / error, or
+no waiting request has its id and name -/
+def Unclaimed (cfg : Cfg) (pend : List Pend) (c : Case) : Prop :=
+  isReplyTyp (getTyp (blankFrom cfg c.n c.as)) = false ∨
+    pendMatch pend (getId (blankFrom cfg c.n c.as)) c.n = none
+
+example : Unclaimed { ns := nsClient, localBare := "me@example.com", jidCanon := fun s => some s }
+    [⟨"p1", ⟨"", "iq"⟩⟩]
+    { n := ⟨nsClient, "iq"⟩, as := [attr "type" "result", attr "id" "other"], body := [.stop ⟨nsClient, "iq"⟩],
+      prog := Prog.nop, added := [] } := Or.inr (by decide)
+
+/-- **exact view and resynchronisation with requests pending**: a well-formed element that no
+waiting request claims is handled by `handleInputStreamP` exactly as `C08_exact_view_resync` says —
+the handler's reads return the element's tokens through its end tag and then EOF, the input then
+stands at the token after the end tag whatever was consumed — and the table is unchanged -/
+theorem C08_exact_view_resync_pending (cfg : Cfg) (pend : List Pend) (c : Case) (hc : c.Ok cfg)
+    (hu : Unclaimed cfg pend c) (a : Nat) (rest : List Tok) :
+    handleInputStreamP cfg pend { inp := c.toks ++ rest, dIn := a, dOut := 0, sticky := none } c.prog
+      = (.next (some (c.inv cfg)) c.written { inp := rest, dIn := a, dOut := 0, sticky := none }, pend, none) := by
+  have hstep := handleInputStream_elem cfg
+    { inp := c.toks ++ rest, dIn := a, dOut := 0, sticky := none }
+    c.n c.as c.body rest c.prog (by simp [Case.toks]) hc.ns
+    (by simpa using splitElem_ext c.body 0 c.body [] rest hc.wf)
+    hc.pl hc.ret c.added hc.add
+  have hdel : deliveredTo cfg pend { inp := c.toks ++ rest, dIn := a, dOut := 0, sticky := none } = none := by
+    unfold deliveredTo
+    have hnext : ({ ({ inp := c.toks ++ rest, dIn := a, dOut := 0, sticky := none } : RS) with dOut := 0, sticky := none } : RS).next
+        = (.tok (.start c.n c.as), { inp := c.body ++ rest, dIn := a + 1, dOut := 1, sticky := none }) := by
+      simp [RS.next, Case.toks, verdict, hc.ns]
+    rw [hnext]
+    rcases hu with h | h
+    · simp [h]
+    · simp [h]
+  rw [C08_unawaited_element_handled cfg pend _ c.prog hdel, hstep]
+  simp [Case.inv, Case.written]
+
+/-- **one invocation per top-level element, in arrival order, with requests pending**: a sequence
+of well-formed elements none of which a waiting request claims is served by `serveFP` (the machine
+behind `servepw`) exactly as by `serveF`: one invocation per element with its exact view, each
+handler's output followed by what the session adds, the table unchanged, nothing delivered, then
+whatever the loop does with the rest of the input -/
+theorem C08_serveFP_cases (cfg : Cfg) (pend : List Pend) : ∀ (cs : List Case) (fuel a : Nat) (tail : List Tok),
+    (∀ c ∈ cs, c.Ok cfg) → (∀ c ∈ cs, Unclaimed cfg pend c) →
+    serveFP cfg (fuel + cs.length) pend { inp := cs.flatMap Case.toks ++ tail, dIn := a, dOut := 0, sticky := none }
+        (cs.map (·.prog))
+      = { out :=
+            { invs := cs.map (Case.inv cfg) ++ (serveFP cfg fuel pend { inp := tail, dIn := a, dOut := 0, sticky := none } []).out.invs,
+              written := cs.flatMap Case.written ++ (serveFP cfg fuel pend { inp := tail, dIn := a, dOut := 0, sticky := none } []).out.written,
+              result := (serveFP cfg fuel pend { inp := tail, dIn := a, dOut := 0, sticky := none } []).out.result },
+          delivered := (serveFP cfg fuel pend { inp := tail, dIn := a, dOut := 0, sticky := none } []).delivered } := by
+  intro cs
+  induction cs with
+  | nil => intro fuel a tail _ _; simp
+  | cons c cs ih =>
+    intro fuel a tail hok hun
+    have hstep := C08_exact_view_resync_pending cfg pend c (hok c (by simp)) (hun c (by simp)) a
+      (cs.flatMap Case.toks ++ tail)
+    have hin : (c :: cs).flatMap Case.toks ++ tail = c.toks ++ (cs.flatMap Case.toks ++ tail) := by
+      simp [List.append_assoc]
+    have := ih fuel a tail (fun x hx => hok x (by simp [hx])) (fun x hx => hun x (by simp [hx]))
+    rw [show fuel + (c :: cs).length = (fuel + cs.length) + 1 by simp; omega, hin]
+    simp only [serveFP, List.map_cons, List.headD_cons, hstep, Option.isSome_some, if_true, List.tail_cons]
+    rw [this]
+    simp [List.append_assoc]
+
+/-- … followed by the peer's closing tag: `Serve` ends without error, one invocation per element,
+nothing handed to a waiter -/
+theorem C08_one_per_element_pending (cfg : Cfg) (pend : List Pend) (cs : List Case) (junk : List Tok)
+    (hok : ∀ c ∈ cs, c.Ok cfg) (hun : ∀ c ∈ cs, Unclaimed cfg pend c) :
+    serveP cfg pend (cs.flatMap Case.toks ++ .stop ⟨nsStream, "stream"⟩ :: junk) (cs.map (·.prog))
+      = { out := { invs := cs.map (Case.inv cfg), written := cs.flatMap Case.written, result := .clean },
+          delivered := [] } := by
+  have hlen : cs.length ≤ (cs.flatMap Case.toks).length := by
+    clear hun
+    induction cs with
+    | nil => simp
+    | cons c cs ih =>
+      have := ih (fun x hx => hok x (by simp [hx]))
+      rw [List.flatMap_cons, List.length_append]
+      simp only [Case.toks, List.length_cons]
+      omega
+  unfold serveP
+  obtain ⟨f, hf⟩ : ∃ f, (cs.flatMap Case.toks ++ Tok.stop ⟨nsStream, "stream"⟩ :: junk).length + 1
+      = (f + 1) + cs.length :=
+    ⟨(cs.flatMap Case.toks).length - cs.length + junk.length + 1, by
+      rw [List.length_append, List.length_cons]; omega⟩
+  rw [hf]
+  have := C08_serveFP_cases cfg pend cs (f + 1) 0 (.stop ⟨nsStream, "stream"⟩ :: junk) hok hun
+  simp only [RS.init]
+  rw [this]
+  simp [serveFP, handleInputStreamP, deliveredTo, handleInputStream, RS.next, verdict, nsStream]
+
 end XmppModel.Props.C08
